@@ -89,6 +89,7 @@ def run(repo, chk, tier):
     scorers(repo, chk)
     label_side(repo, chk)
     estimator_roles(repo, chk)
+    correction_flag(repo, chk)
     coded_columns(repo, chk)
     coverage(repo, chk)
     from .common import vector_casts
@@ -264,6 +265,41 @@ def estimator_roles(repo, chk):
                 f'`{est.params[1]}`, the conditioning side - the cardinality-corrected score is then H(X*|Y) - H(X|Y) of the wrong orientation (plain MI is symmetric and hides it)')
     else:
         chk.unsure('C05.3b', 'R6', fn.site(cs[0]), ast.unparse(cs[0]).replace('\n', ' ')[:140], 'which of the two vectors reaches which side of the estimator is not decided')
+
+
+class _Renamed:
+    """the same obligations reported under this property's identifiers"""
+    def __init__(self, chk, mapping):
+        self._chk, self._map = chk, mapping
+
+    def _oid(self, oid):
+        return self._map.get(oid, oid)
+
+    def ok(self, oid, *a, **k):
+        return self._chk.ok(self._oid(oid), *a, **k)
+
+    def bad(self, oid, *a, **k):
+        return self._chk.bad(self._oid(oid), *a, **k)
+
+    def unsure(self, oid, *a, **k):
+        return self._chk.unsure(self._oid(oid), *a, **k)
+
+    def expect(self, cond, oid, *a, **k):
+        return self._chk.expect(cond, self._oid(oid), *a, **k)
+
+    def expect_term(self, t, forms, oid, *a, **k):
+        return self._chk.expect_term(t, forms, self._oid(oid), *a, **k)
+
+    def __getattr__(self, name):
+        return getattr(self._chk, name)
+
+
+def correction_flag(repo, chk):
+    """C05.3c - "plug-in MI for MI and MI-numba-3mr, the cardinality-corrected score for MI-numba-randomized": the flag numba_mi hands to the estimator,
+    evaluated for every heuristic name the package dispatches on, is on exactly for 'MI-numba-randomized' (the rule C03 states for its own property,
+    reported here because the statement of C05 names the heuristics one by one)."""
+    from .c03 import flag_mapping
+    flag_mapping(repo, _Renamed(chk, {'C03.5c': 'C05.3c', 'C03.5d': 'C05.3d'}))
 
 
 def _sym_exec(fn, comb, args, frame, c0, c1):
